@@ -66,14 +66,14 @@ class C39(Check):
     id = "C39"
     prop_file = "theories/Properties/Properties_C39.v"
     theorems = ("C39_split_join_modulo_empty_fields", "C39_split_join_roundtrip_iff",
-                "C39_split_with_empty_join_refuted", "C39_split_with_empty_join_exact",
+                "C39_split_with_empty_join",
                 "C39_split_after_join", "C39_split_with_empty_after_join_iff",
                 "C39_join_is_intercalate", "C39_join_range",
                 "C39_insert_positions", "C39_insert_element", "C39_delete_positions", "C39_delete_noop",
                 "C39_delete_after_insert", "C39_delete_after_insert_beyond_end", "C39_delete_argc",
                 "C39_append_prepend_copy_count_len", "C39_append_unique",
                 "C39_parse_reports_options_and_tail", "C39_parse_queries",
-                "C39_parse_missing_parameter_double_free_refuted")
+                "C39_split_with_empty_join_prefix_refuted", "C39_parse_missing_parameter_double_free_prefix_refuted")
     comp = "argv"
     extract_file = "theories/Extract/Extract_Argv.v"
     extracted = ("argv",)
@@ -82,16 +82,20 @@ class C39(Check):
     level_text = (
         "Coq theorems for every string, delimiter, vector and position about an executable model that mirrors the loops of "
         "argv.c: exact characterisation of join(split) for both split variants (split: the empty fields are dropped and "
-        "nothing else, round trip iff no leading/trailing/doubled delimiter; split_with_empty: exactly one trailing "
-        "delimiter is lost, round trip iff the string does not end with the delimiter — the literal statement is REFUTED "
-        "with witness \"a,\"), split(join v) = v on delimiter-free non-empty tokens, insert = firstn ++ source ++ skipn "
+        "nothing else, round trip iff no leading/trailing/doubled delimiter; split_with_empty: all fields are returned "
+        "and the join gives the string back, for every string), split(join v) = v on delimiter-free non-empty tokens, insert = firstn ++ source ++ skipn "
         "with all positional laws, delete = firstn ++ skipn, delete after insert is the identity for start <= count "
         "(and what happens beyond), append/prepend/append_unique/copy/count/len.  For cmd_line.c: a model of make_opt, "
-        "find_option, split_shorts, parse, get_ninsts, get_param; theorem for every well-formed command line written "
-        "with -name/--name tokens (each option followed by its parameters, then end / '--' tail / a non-dash token): the "
-        "parser reports exactly those options with those parameters and that tail; the path where a parameter is missing "
-        "after at least one was taken frees memory twice (REFUTED, witness '-ab x').  Combined short options (-abc) are "
-        "modelled and compared with the code but have no general theorem (partial there).  The model is tied to the code "
+        "find_option, split_shorts, parse, get_ninsts, get_param; theorem for every well-formed command line (options "
+        "written as -name/--name or as a group of short options -xyz, each followed by its parameters, then end / '--' "
+        "tail / a non-dash token; the model's fuel is shown sufficient): the parser reports exactly those options with "
+        "those parameters, in order, and that tail, and get_ninsts/get_param answer accordingly.  "
+        "Both findings of this property are repaired in the repository (37250ca: split_with_empty dropped the field after a "
+        "trailing delimiter; 6bc250b: the parser freed a parameter vector twice); the model follows the repaired code and the "
+        "previous code is refuted in the two ..._prefix_refuted theorems; the oracle still flags both classes "
+        "(signatures splitwe-trailing-delim, cmd-crash-multiparam).  "
+        "Malformed command lines (unknown option, missing parameter) are modelled and compared with "
+        "the code without a theorem of their own.  The model is tied to the code "
         "by running both on every generated case.")
     level_note = ("Trusted: Coq kernel, extraction, harness (vectors are built with malloc/strdup, results printed with "
                   "explicit quoting), the Python oracle.  Assumes malloc/realloc/strdup succeed, delimiter in 1..127, "
